@@ -45,6 +45,9 @@ Definition pcanon (p : prefix) : Prop := (pbase p = 0 -> pexp p = 0) /\ (pbase p
 (* ---------- units ---------- *)
 Record unit3 := MkU { upre : prefix; ufac : fmap; udim : fmap }.
 
+Global Instance unit3_eq_dec : EqDecision unit3.
+Proof. solve_decision. Defined.
+
 Definition ukey (u : unit3) : prefix * fmap := (upre u, ufac u).
 Definition ukey_eqb (a b : unit3) : bool :=
   andb (bool_decide (upre a = upre b)) (feqb (ufac a) (ufac b)).
